@@ -3,7 +3,8 @@
    gen_cfg munch = the tables regenerated from /repo (Generated/IsoCodes.v) with an arbitrary Unicode folding. *)
 From Coq Require Import NArith List Bool.
 From I18n Require Import Lib.Outcome Model.Ling Model.LingData Generated.IsoCodes Spec.Locale
-  Proofs.LingParse Proofs.LingFix Proofs.LingCheck Proofs.LingRefute.
+  Proofs.LingParse Proofs.LingFix Proofs.LingCheck Proofs.LingRefute
+  Model.LingPy Generated.LingSrc Proofs.LingSrc Proofs.LingSrcCheck.
 Import ListNotations.
 Local Open Scope N_scope.
 
@@ -187,7 +188,72 @@ Theorem C19_no_own_error : forall cfg opt path metas pls pcs tmpl e,
 Proof. exact check_language_failures. Qed.
 Print Assumptions C19_no_own_error.
 
+(* ---------- source tie ----------
+   Generated/LingSrc.v is the statement-by-statement translation of lib/ling.py (class Language, the lookups, parse_language,
+   get_language_for_name) and of Checker.check_language, written by tools/gen/gen_ling_src.py from the working tree at the
+   start of every check.  Each translated function equals the model, for all arguments.  env_of cfg = the model's tables
+   and oracles (cfg_munch; the scanner for _language_regexp; ASCII upper-casing); `seen` = the result, or the exception as
+   the model classifies it (own error / foreign exception). *)
+Theorem C19_source_tie_lookups : forall cfg k,
+  src_lookup_language_code (env_of cfg) k = lg_lookup (cfg_iso639 cfg) k /\
+  src_lookup_territory_code (env_of cfg) k = lookup_territory_code cfg k.
+Proof. exact src_tie_lookups. Qed.
+Print Assumptions C19_source_tie_lookups.
+
+(* Language._get_tuple, __eq__, __ne__ *)
+Theorem C19_source_tie_compare : forall E a b,
+  src_get_tuple E a = (l_lang a, l_terr a, l_enc a, l_mod a) /\ src_eq E a b = lang_eqb a b /\ src_ne E a b = negb (lang_eqb a b).
+Proof. exact src_tie_compare. Qed.
+Print Assumptions C19_source_tie_compare.
+
+Theorem C19_source_tie_str : forall E l, src_str E l = str_language l.
+Proof. exact src_str_eq. Qed.
+Print Assumptions C19_source_tie_str.
+
+(* Language.__init__ and parse_language: the object built from the groups the scanner yields *)
+Theorem C19_source_tie_parse : forall cfg s,
+  (forall ll cc en md, src_init (env_of cfg) ll cc en md = LRet (mkLang ll cc (option_map (map ascii_upper) en) md)) /\
+  seen own_syntax (src_parse_language (env_of cfg) s) = parse_language s.
+Proof. exact src_tie_parse. Qed.
+Print Assumptions C19_source_tie_parse.
+
+(* fix_codes: the object afterwards and the returned True / None, FixingLanguageCodesFailed, the ValueError branch *)
+Theorem C19_source_tie_fix_codes : forall cfg l, src_fix_codes (env_of cfg) l = of_fix (fix_codes cfg l).
+Proof. exact src_fix_codes_eq. Qed.
+Print Assumptions C19_source_tie_fix_codes.
+
+Theorem C19_source_tie_remove : forall E l,
+  src_remove_encoding E l = LRet (fst (remove_encoding l), flag (snd (remove_encoding l))) /\
+  src_remove_nonlinguistic_modifier E l = LRet (fst (remove_nonlinguistic_modifier l), flag (snd (remove_nonlinguistic_modifier l))).
+Proof. exact src_tie_remove. Qed.
+Print Assumptions C19_source_tie_remove.
+
+(* the lookup ladder after _munch_language_name *)
+Theorem C19_source_tie_get_language_for_name : forall cfg name,
+  seen own_lookup (src_get_language_for_name (env_of cfg) name) = get_language_for_name cfg name.
+Proof. exact src_get_language_for_name_seen. Qed.
+Print Assumptions C19_source_tie_get_language_for_name.
+
+(* Checker.check_language: the tags in order and ctx.language, or the exception that escapes *)
+Theorem C19_source_tie_check_language : forall cfg opt path metas pls pcs tmpl,
+  seen own_none (src_check_language (env_of cfg) opt path metas pls pcs tmpl) = check_language cfg opt path metas pls pcs tmpl.
+Proof. exact src_check_language_seen. Qed.
+Print Assumptions C19_source_tie_check_language.
+
 (* ---------- non-vacuity ---------- *)
+(* the translated check_language run on po/de.po with "Language: pol" (compare C19_ex_check) *)
+Example C19_src_ex_check :
+  src_check_language (env_of id_cfg) None [112;111;47;100;101;46;112;111] [[112;111;108]] [] [] false
+  = LRet ([DInvalidLanguage [112;111;108] (Some l_pl);
+           DDisparity (mkLang [100;101] None None None) SrcPathname l_pl SrcLanguageField],
+          Some (mkLang [100;101] None None None)).
+Proof. vm_compute. reflexivity. Qed.
+
+(* the translated fix_codes on pol_PL *)
+Example C19_src_ex_fix : src_fix_codes (env_of id_cfg) (mkLang [112;111;108] (Some [80;76]) None None)
+  = LRet (mkLang [112;108] (Some [80;76]) None None, Some true).
+Proof. vm_compute. reflexivity. Qed.
+
 Definition s_full : list N :=    (* "pl_PL.utf-8@euro" *)
   [112;108;95;80;76;46;117;116;102;45;56;64;101;117;114;111].
 Example C19_ex_parse : option_map str_language (match parse_language s_full with Ok l => Some l | _ => None end)
